@@ -333,17 +333,13 @@ theorem signals_rotateH (left : Bool) (args : List Bytes) (b : Body) (h : Handle
 
 /-! ## hashes -/
 
-/-- HSET: `HSet` for the first pair, then (more arguments) one `HMSet` as a second call -/
+/-- HSET: one `HMSet` -/
 theorem signals_hSetH (args : List Bytes) (b : Body) (h : Handler2.hSetH args = .exec b) : SignalsChanges b := by
   unfold Handler2.hSetH at h
   split at h
   · cases h
-    refine signals_of_frame fun st now ch hp => frame_call2 hp _ _ (frame_hset st hp now _ _ _) fun s o hps => ?_
-    dsimp only
-    split
-    · exact Frame.refl _ _
-    · exact (frame_commit s).trans0
-        (frame_call _ _ (fun _ _ => rfl) (frame_hmset (Api.commit s) hps now _ _))
+    exact signals_of_frame fun st now ch hp =>
+      frame_call _ _ (fun _ _ => rfl) (frame_hmset st hp now _ _)
   · cases h
 
 theorem signals_hGetH (args : List Bytes) (b : Body) (h : Handler2.hGetH args = .exec b) : SignalsChanges b := by
